@@ -514,7 +514,7 @@ func generate(c *vf.Ctx, sps []*seedPack) []Mut {
 	}
 	r := c.Rand("gen")
 	quick := c.Quick()
-	payloadFlips := c.N(3, 30) // per entry
+	payloadFlips := c.N(3, 15) // per entry
 	idxreadFlips := c.N(2, 8)  // per entry
 	pick := func(n, k int) []int { // k distinct indexes out of n (all when thorough)
 		if !quick || k >= n {
